@@ -94,3 +94,51 @@ impl RefName {
         self.0.len() > other.0.len() && self.0[self.0.len() - other.0.len()..] == other.0[..]
     }
 }
+
+/// Validate the reference schemas against ground truth that does not come from this harness:
+/// the dnspython-generated sample records shipped with the repository must decode under the
+/// reference decoder and re-encode byte for byte. Returns (files checked, records checked).
+pub fn selfcheck_samples() -> Result<(usize, usize), String> {
+    let dir = format!("{}/refdata/zonefile", std::env::var("VERIF_ROOT").unwrap_or_else(|_| "/verif".into()));
+    let dir = dir.as_str();
+    let rd = std::fs::read_dir(dir).map_err(|e| format!("{}: {}", dir, e))?;
+    let mut files = 0;
+    let mut recs = 0;
+    for e in rd.flatten() {
+        let path = e.path();
+        let data = std::fs::read(&path).map_err(|e| format!("{:?}: {}", path, e))?;
+        // count the records by trying increasing ANCOUNT until the walker consumes the file
+        let mut ok = false;
+        for n in 1..=64u16 {
+            let mut msg = vec![0, 0, 0x80, 0, 0, 0];
+            msg.extend_from_slice(&n.to_be_bytes());
+            msg.extend_from_slice(&[0, 0, 0, 0]);
+            msg.extend_from_slice(&data);
+            match wire::walk(&msg) {
+                Ok(w) if w.end == msg.len() => {
+                    let (p, _) = packet::decode_packet(&msg).map_err(|e| format!("{:?}: reference decoder fails: {:?}", path, e))?;
+                    let mut out = Vec::new();
+                    for r in &p.answers {
+                        packet::encode_rr(r, &mut out);
+                    }
+                    if out != data {
+                        return Err(format!("{:?}: reference re-encoding differs from the sample", path));
+                    }
+                    recs += p.answers.len();
+                    ok = true;
+                    break;
+                }
+                Ok(_) => continue,
+                Err(_) => continue,
+            }
+        }
+        if !ok {
+            return Err(format!("{:?}: sample does not walk as 1..=64 records", path));
+        }
+        files += 1;
+    }
+    if files == 0 {
+        return Err("no sample files found".into());
+    }
+    Ok((files, recs))
+}
